@@ -1,6 +1,8 @@
 from sa.selftest.harness import M, T
 
 X = "sharepoint2text/parsing/extractors/"
+EPB = "sharepoint2text/parsing/extractors/epub_extractor.py"
+PLN = "sharepoint2text/parsing/extractors/plain_extractor.py"
 MUTANTS = [
     M("narrow-catch-all-docx", X + "ms_modern/docx_extractor.py", '    except Exception as exc:\n        raise ExtractionFailedError("Failed to extract DOCX file", cause=exc) from exc', '    except (ValueError, KeyError) as exc:\n        raise ExtractionFailedError("Failed to extract DOCX file", cause=exc) from exc', "C01-WRAP", "read_docx"),
     M("swallow-family-xlsx", X + "ms_modern/xlsx_extractor.py", '    except ExtractionError:\n        raise\n    except Exception as exc:\n        raise ExtractionFailedError("Failed to extract XLSX file", cause=exc) from exc', '    except ExtractionError:\n        return\n    except Exception as exc:\n        raise ExtractionFailedError("Failed to extract XLSX file", cause=exc) from exc', "C01-WRAP", "read_xlsx"),
@@ -20,12 +22,15 @@ MUTANTS = [
     M("rtf-hex-continue", X + "ms_legacy/rtf_extractor.py", "                        except ValueError:\n                            pass\n                        i += 4", "                        except ValueError:\n                            continue\n                        i += 4", "C01-LOOP"),
     M("heading-stack-no-pop", X + "data_types.py", "                    while heading_stack and heading_stack[-1][0] >= heading_level:\n                        heading_stack.pop()", "                    while heading_stack and heading_stack[-1][0] >= heading_level:\n                        heading_level += 0", "C01-LOOP"),
     M("recursion-on-self-docx", X + "ms_modern/docx_extractor.py", "            for child in choice:\n                _process_text_element(child, parts, include_formulas)", "            for child in choice:\n                _process_text_element(elem, parts, include_formulas)", "C01-REC"),
+    M("regex-nested-repeat", EPB, '_RE_MULTI_SPACE = re.compile(r"[ \\t]+")', '_RE_MULTI_SPACE = re.compile(r"(?:[ \\t]+)+")', "C01-REGEX"),
+    M("plain-reader-closes-input", PLN, "        file_like.seek(0)\n\n        content = file_like.read()\n", "        file_like.seek(0)\n\n        content = file_like.read()\n        file_like.close()\n", "C01-BORROW"),
 ]
 TWINS = [
     T("rename-exc-var", X + "ms_modern/docx_extractor.py", '    except Exception as exc:\n        raise ExtractionFailedError("Failed to extract DOCX file", cause=exc) from exc', '    except Exception as error:\n        raise ExtractionFailedError("Failed to extract DOCX file", cause=error) from error'),
     T("two-statement-raise", X + "mhtml_extractor.py", '    except Exception as exc:\n        raise ExtractionFailedError("Failed to extract MHTML file", cause=exc) from exc', '    except Exception as exc:\n        err = ExtractionFailedError("Failed to extract MHTML file", cause=exc)\n        raise err from exc'),
     T("cli-two-writes-constant-second", "sharepoint2text/cli.py", '        sys.stdout.write(output + "\\n")\n        return 0', '        sys.stdout.write(output)\n        sys.stdout.write("\\n")\n        return 0'),
     T("loop-increment-reordered", X + "util/encryption.py", "        offset += 4 + record_len", "        offset += record_len + 4"),
+    T("regex-unambiguous-alternation", EPB, '_RE_NAV_LINK = re.compile(r\'<a[^>]+href="([^"]+)"[^>]*>([^<]+)</a>\', re.IGNORECASE)', '_RE_NAV_LINK = re.compile(r\'<a[^>]+href="([^"]+)"[^>]*>((?:[^<]|<[^/][^>]*>)+?)</a>\', re.IGNORECASE)'),
 ]
 
 # --- seeded changes kept under /verif/seeded (sub-agents saw only the property text); each must be reported by the named rule
@@ -40,5 +45,7 @@ SEEDED = [
     ("C01-5", "C01-CLI"),
     ("C01-6", "C01-LOOP"),
     ("C01-7", "C01-UNBOUND"),
+    ("C01-8", "C01-REGEX"),
+    ("C01-9", "C01-BORROW"),
 ]
 MUTANTS = list(MUTANTS) + [_P("seed-" + sid, _os.path.join(_SEEDS, sid, "patch.diff"), rule) for sid, rule in SEEDED if _os.path.exists(_os.path.join(_SEEDS, sid, "patch.diff"))]
